@@ -13,8 +13,9 @@ TECH = ("machine-checked proof in Coq 8.16 (theorems over an executable Gallina 
 CLAIMED = {
     "C04": ("Proved for every evaluator, state and rerun-free history of API calls: failed and canceled are final, "
             "succeeded can only become failed, nothing is offered in succeeded/canceled and only run_on_fail entries in "
-            "failed (5 theorems, closed). Tested by monitor, not proved: late reports are absorbed without error; a "
-            "rejected status request leaves the persisted state unchanged.",
+            "failed; a status request that is rejected leaves the entire conductor state unchanged (for every state whose "
+            "workflow status is one of the table's rows, which is proved invariant over every history; witness that the "
+            "proviso is needed). Tested by monitor, not proved: late reports are absorbed without error.",
             "Theorems are about coq/model (Conductor.v etc.); workflow/task tables, status sets and event vocabularies are "
             "regenerated from /repo by harness/reflect.py on every run; the model is tied to conducting.py/machines.py by "
             "comparing serialize() of engine and extracted model after every API call on generated histories (sampled)."),
